@@ -12,13 +12,15 @@ package common
 // ───────────── script.go ─────────────
 
 //@ func (s Script) VerifyFormat
-//@   property C05
+//@   property C05, C02
 //@   modifies nothing
 //@   ensures result == nil ==> len(s) == 3 && s[2] <= Operator64
+//@   ensures [c02-format] result == nil ==> ScriptOK(s)
 
 //@ func (s Script) Validate
-//@   property C05
+//@   property C05, C02
 //@   modifies nothing
+//@   ensures [c02-threshold] result == nil ==> ScriptOK(s) && sum >= s[2] -- the threshold check of C02: at least s[2] signers
 
 //@ assume func (s Script) String
 //@   pure
@@ -147,13 +149,46 @@ package common
 //@   modifies nothing
 
 //@ func validateUTXO
-//@   property C05
+//@   property C05, C02
 //@   requires utxo != nil && keySigs != nil && 0 <= index && 0 <= offset
 //@   modifies keySigs[..]
 //@   ensures [nokeys] utxo.Type != OutputTypeScript && utxo.Type != OutputTypeNodeRemove ==> len(keySigs) == old(len(keySigs))
 //@   ensures [types] result == nil ==> utxo.Type == OutputTypeScript || utxo.Type == OutputTypeNodeRemove ||
 //@       (utxo.Type == OutputTypeNodePledge && (txType == TransactionTypeNodeAccept || txType == TransactionTypeNodeCancel)) ||
 //@       (utxo.Type == OutputTypeNodeAccept && txType == TransactionTypeNodeRemove)
+//@   -- C02, per-input signature map: every signer index of sigs[index] is a key index of the spent output, that key is collected (mapped to
+//@   -- the signature submitted under that index when the key objects are distinct), and the number of (distinct) indices reaches the threshold
+//@   ensures [c02-map-keys] result == nil && SignedType(utxo.Type) && as == nil ==> index < len(sigs) &&
+//@       (forall i uint16 :: has(sigs[index], i) ==> i < len(utxo.Keys) && has(keySigs, utxo.Keys[i]))
+//@   ensures [c02-map-sigs] result == nil && SignedType(utxo.Type) && as == nil && PtrDistinct(utxo.Keys) ==>
+//@       (forall i uint16 :: has(sigs[index], i) ==> keySigs[utxo.Keys[i]] == sigs[index][i])
+//@   ensures [c02-map-threshold] result == nil && SignedType(utxo.Type) && as == nil ==> ScriptOK(utxo.Script) && SigCount(sigs[index]) >= utxo.Script[2]
+//@   -- C02, aggregate signature: the signers are strictly increasing; those that fall into this input's window [offset, offset+len(Keys))
+//@   -- are the contiguous run as.Signers[lo .. lo+n), each is mapped to Keys[m-offset] (collected), and n reaches the threshold
+//@   -- (NoWrap: offset + len(Keys) is computed in machine ints; both are lengths of slices that exist at the same time, so it cannot wrap)
+//@   ensures [c02-agg] result == nil && SignedType(utxo.Type) && as != nil && NoWrap(offset, utxo.Keys) ==> SignersOK(as.Signers) && ScriptOK(utxo.Script) &&
+//@       (exists lo, n int :: {Witness2(lo, n)} Witness2(lo, n) && AggWindow(as.Signers, lo, n, offset, offset + len(utxo.Keys)) && n >= utxo.Script[2] &&
+//@           (forall j int :: lo <= j && j < lo + n ==> has(keySigs, utxo.Keys[as.Signers[j] - offset])))
+//@   -- what happens to the other entries of keySigs: nothing is removed; entries of keys that are not keys of this output are unchanged
+//@   ensures [c02-keeps] forall p *crypto.Key :: old(has(keySigs, p)) ==> has(keySigs, p)
+//@   ensures [c02-others] forall p *crypto.Key :: (forall j int :: 0 <= j && j < len(utxo.Keys) ==> p != utxo.Keys[j]) ==>
+//@       (has(keySigs, p) <==> old(has(keySigs, p))) && keySigs[p] == old(keySigs[p])
+//@   hint return [win] NoWrap(offset, utxo.Keys) ==> AggWindow(as.Signers, rangeindex_0 + 1 - signers, signers, offset, offset + len(utxo.Keys))
+//@   hint return [run] forall j int :: rangeindex_0 + 1 - signers <= j && j < rangeindex_0 + 1 ==> has(keySigs, utxo.Keys[as.Signers[j] - offset])
+//@   hint return [wit] Witness2(rangeindex_0 + 1 - signers, signers) -- names the witness (lo, n) of [c02-agg] for the solver (Witness2 is constantly true)
+//@   loop 0 invariant [c02-lo] 0 <= signers && signers <= rangeindex + 1
+//@   loop 0 invariant [c02-before] forall j int :: 0 <= j && j < rangeindex + 1 - signers ==> as.Signers[j] < offset
+//@   loop 0 invariant [c02-run] forall j int :: rangeindex + 1 - signers <= j && j <= rangeindex ==>
+//@       offset <= as.Signers[j] && as.Signers[j] < offset + len(utxo.Keys) && has(keySigs, utxo.Keys[as.Signers[j] - offset])
+//@   loop 0 invariant [c02-keeps] forall p *crypto.Key :: old(has(keySigs, p)) ==> has(keySigs, p)
+//@   loop 0 invariant [c02-others] forall p *crypto.Key :: (forall j int :: 0 <= j && j < len(utxo.Keys) ==> p != utxo.Keys[j]) ==>
+//@       (has(keySigs, p) <==> old(has(keySigs, p))) && keySigs[p] == old(keySigs[p])
+//@   loop 1 invariant [c02-seen] forall i uint16 :: visited(sigs[index], i) ==> i < len(utxo.Keys) && has(keySigs, utxo.Keys[i])
+//@   loop 1 invariant [c02-seen-sig] PtrDistinct(utxo.Keys) ==> forall i uint16 :: visited(sigs[index], i) ==> keySigs[utxo.Keys[i]] == sigs[index][i]
+//@   loop 1 invariant [c02-len] len(sigs[index]) == old(len(sigs[index]))
+//@   loop 1 invariant [c02-keeps] forall p *crypto.Key :: old(has(keySigs, p)) ==> has(keySigs, p)
+//@   loop 1 invariant [c02-others] forall p *crypto.Key :: (forall j int :: 0 <= j && j < len(utxo.Keys) ==> p != utxo.Keys[j]) ==>
+//@       (has(keySigs, p) <==> old(has(keySigs, p))) && keySigs[p] == old(keySigs[p])
 
 //@ spec InputKey(in *Input) string = fmt.Sprintf2("%s:%d", iface(in.Hash.String()), iface(in.Index))
 //@ spec InLedger(s any, in *Input) bool = LedgerHasTx(s, in.Hash) && 0 <= in.Index && in.Index < LedgerOutCount(s, in.Hash)
